@@ -613,3 +613,138 @@ Proof.
       destruct (parse_fields_char _ (nodup_perm _ _ Hnd P) (nonempty_perm _ _ Hne P)) as (E2 & _).
       rewrite E2. unfold allowed_errs_fields. cbn [key_defects]. rewrite Hkd. reflexivity.
 Qed.
+
+(* ------------------------------------------------------------------------- *)
+(* D. member level *)
+
+Lemma last_wins_keys l k : In k (keys_of (last_wins l)) -> In k (keys_of l).
+Proof.
+  induction l as [|[k' v] r IH]; cbn [last_wins]; [auto|].
+  destruct (existsb (fun p => beq (fst p) k') r); cbn [keys_of map fst]; intros H.
+  - right. exact (IH H).
+  - destruct H as [H|H]; [left; exact H | right; exact (IH H)].
+Qed.
+
+Lemma last_wins_nodup l : NoDup (keys_of (last_wins l)).
+Proof.
+  induction l as [|[k v] r IH]; cbn [last_wins]; [constructor|].
+  destruct (existsb (fun p => beq (fst p) k) r) eqn:E; [exact IH|].
+  cbn [keys_of map fst]. constructor; [|exact IH]. intros Hin. apply last_wins_keys in Hin.
+  unfold keys_of in Hin. apply in_map_iff in Hin as ([k' v'] & Hk & Hin). cbn [fst] in Hk. subst k'.
+  assert (existsb (fun p => beq (fst p) k) r = true); [|congruence].
+  apply existsb_exists. exists (k, v'). split; [exact Hin | apply beq_refl].
+Qed.
+
+Lemma last_wins_nonempty l : nonempty_vals l -> nonempty_vals (last_wins l).
+Proof.
+  unfold nonempty_vals. induction 1 as [|[k v] r Hkv Hr IH]; cbn [last_wins]; [constructor|].
+  match goal with |- context [existsb ?f r] => destruct (existsb f r) end; [exact IH | constructor; assumption].
+Qed.
+
+Lemma member_fields_wf data fs : member_fields data = Some fs -> NoDup (keys_of fs) /\ nonempty_vals fs.
+Proof.
+  unfold member_fields. destruct (raw_members data) as [ms|] eqn:E; [|discriminate]. intros H; injection H as <-.
+  split; [apply last_wins_nodup | apply last_wins_nonempty, (raw_members_nonempty _ _ E)].
+Qed.
+
+(* C02: validity and every parsed field of a member do not depend on the order in which Go's map
+   iteration presents the fields; the reported defect is always one of allowed_errs, each element
+   of allowed_errs is reported by some order, every code is -32700 or -32600 *)
+Lemma member_order_independent data (order : list (bytes * bytes) -> list (bytes * bytes)) :
+  (forall fs, Permutation fs (order fs)) ->
+  let m := parse_member data in
+  let m' := parse_member_ord order data in
+  same_fields m' m /\
+  (j_err m' = None <-> j_err m = None) /\
+  (j_err m = None <-> allowed_errs data = []) /\
+  (forall e, j_err m' = Some e -> exists a, In a (allowed_errs data) /\ werr_equiv e a) /\
+  (forall a, In a (allowed_errs data) -> we_code a = ParseError \/ we_code a = InvalidRequest) /\
+  (forall a, In a (allowed_errs data) ->
+     exists order' e, (forall fs, member_fields data = Some fs -> Permutation fs (order' fs)) /\
+                      j_err (parse_member_ord order' data) = Some e /\ werr_equiv e a).
+Proof.
+  intros Hord. unfold parse_member, parse_member_ord, allowed_errs.
+  destruct (member_fields data) as [fs|] eqn:E.
+  - destruct (member_fields_wf _ _ E) as [Hnd Hne].
+    destruct (fields_order_independent fs (order fs) Hnd Hne (Hord fs)) as (A & B & C & D & F & G).
+    repeat split; try apply A; try apply B; try apply C; try exact D; try exact F.
+    intros a Ha. destruct (G a Ha) as (fs'' & e & P & He & Heq). exists (fun _ => fs''), e.
+    split; [intros fs0 H0; injection H0 as <-; exact P | split; assumption].
+  - repeat split; try discriminate.
+    + intros e He. exists e_not_object. split; [left; reflexivity|]. left. cbn in He. injection He as <-. reflexivity.
+    + intros a [<-|[]]. left; reflexivity.
+    + intros a [<-|[]]. exists (fun fs => fs), e_not_object. split; [discriminate|]. split; [reflexivity | left; reflexivity].
+Qed.
+
+(* C13: ParseRequests flags exactly the structurally invalid members, with a defect of the allowed set *)
+Lemma flags_agree s batch raws :
+  split_msgs s = Some (batch, raws) ->
+  parse_msgs s = InMsgs batch (map parse_member raws) /\
+  parse_requests s = Parsed (map (fun r => to_parsed (parse_member r)) raws) /\
+  forall r, In r raws ->
+    (pr_error (to_parsed (parse_member r)) = None <-> allowed_errs r = []) /\
+    (forall e, pr_error (to_parsed (parse_member r)) = Some e ->
+       In e (allowed_errs r) /\ (we_code e = ParseError \/ we_code e = InvalidRequest)).
+Proof.
+  intros H. unfold parse_requests, parse_msgs. rewrite H. split; [reflexivity|]. split; [rewrite map_map; reflexivity|].
+  intros r _. cbn [to_parsed pr_error].
+  destruct (member_order_independent r (fun fs => fs) (fun fs => Permutation_refl fs)) as (_ & _ & C & D & F & _).
+  split; [exact C|]. intros e He.
+  unfold parse_member, parse_member_ord, allowed_errs in *. destruct (member_fields r) as [fs|] eqn:E.
+  - destruct (member_fields_wf _ _ E) as [Hnd Hne]. destruct (parse_fields_char fs Hnd Hne) as (Eh & _).
+    rewrite Eh in He. assert (Hin : In e (allowed_errs_fields fs)) by (destruct (allowed_errs_fields fs); [discriminate | injection He as ->; left; reflexivity]).
+    split; [exact Hin | exact (F e Hin)].
+  - cbn in He. injection He as <-. split; [left; reflexivity | left; reflexivity].
+Qed.
+
+(* C02, envelope level *)
+Lemma not_json s : parse s = None <-> parse_msgs s = InBad.
+Proof.
+  unfold parse_msgs. rewrite <- split_msgs_none. destruct (split_msgs s) as [[b r]|]; split; try discriminate; reflexivity.
+Qed.
+
+Lemma empty_batch s : parse s = Some (JArr []) <-> exists b, parse_msgs s = InMsgs b [].
+Proof.
+  unfold parse_msgs, parse, split_msgs, raw_value, raw_elements.
+  destruct (parse_doc s) as [[[w c] w1]|] eqn:E.
+  - pose proof (parse_doc_first_byte _ _ _ _ E) as Hfb. split.
+    + intros H. injection H as H. destruct c; try discriminate. cbn [cst_json] in H. injection H as H.
+      apply map_eq_nil in H. subst es. assert (Hf : first_byte s = 91) by (apply Hfb; eauto).
+      rewrite Hf. cbn [N.eqb Pos.eqb negb map]. eauto.
+    + intros [b H]. destruct (first_byte s =? 91) eqn:Ef; cbn [negb] in H; [|discriminate].
+      apply N.eqb_eq in Ef. apply Hfb in Ef as (w' & es & ->). injection H as _ H. apply map_eq_nil in H.
+      apply map_eq_nil in H. subst es. reflexivity.
+  - split; [discriminate|]. intros [b H]. destruct (negb (first_byte s =? 91)); discriminate.
+Qed.
+
+(* an id of null is the same as no id *)
+Lemma null_id_is_absent rest :
+  ~ In k_id (keys_of rest) -> NoDup (keys_of rest) -> nonempty_vals rest ->
+  let m := parse_fields ((k_id, null_bytes) :: rest) in
+  let m0 := parse_fields rest in
+  fix_id (j_id m) = [] /\ fix_id (j_id m0) = [] /\
+  j_method m = j_method m0 /\ j_params m = j_params m0 /\ j_error m = j_error m0 /\ j_result m = j_result m0 /\
+  j_err m = j_err m0 /\ is_notification m = is_notification m0.
+Proof.
+  intros Hnin Hnd Hne.
+  assert (Hnd1 : NoDup (keys_of ((k_id, null_bytes) :: rest))) by (cbn [keys_of map fst]; constructor; assumption).
+  assert (Hne1 : nonempty_vals ((k_id, null_bytes) :: rest)) by (constructor; [discriminate | exact Hne]).
+  destruct (parse_fields_char _ Hnd1 Hne1) as (E & F1 & F2 & F3 & F4 & F5).
+  destruct (parse_fields_char _ Hnd Hne) as (E0 & G1 & G2 & G3 & G4 & G5).
+  cbv zeta.
+  assert (A1 : fix_id (j_id (parse_fields ((k_id, null_bytes) :: rest))) = []) by (rewrite F1; reflexivity).
+  assert (A2 : fix_id (j_id (parse_fields rest)) = []) by (rewrite G1; unfold id_field; rewrite (lookup_none _ _ Hnin); reflexivity).
+  assert (A3 : j_method (parse_fields ((k_id, null_bytes) :: rest)) = j_method (parse_fields rest)) by (rewrite F2, G2; reflexivity).
+  assert (A4 : j_params (parse_fields ((k_id, null_bytes) :: rest)) = j_params (parse_fields rest)) by (rewrite F3, G3; reflexivity).
+  assert (A5 : j_error (parse_fields ((k_id, null_bytes) :: rest)) = j_error (parse_fields rest)) by (rewrite F4, G4; reflexivity).
+  assert (A6 : j_result (parse_fields ((k_id, null_bytes) :: rest)) = j_result (parse_fields rest)) by (rewrite F5, G5; reflexivity).
+  repeat split; try assumption.
+  - rewrite E, E0. reflexivity.
+  - unfold is_notification, is_req_or_notif. rewrite A1, A2, A3, A5, A6. reflexivity.
+Qed.
+
+(* the id that can be echoed for a member, whatever else is wrong with it: the raw id when it is a
+   string or number (or null), nothing otherwise *)
+Lemma member_id_echo fs : NoDup (keys_of fs) -> nonempty_vals fs ->
+  j_id (parse_fields fs) = match lookup k_id fs with Some v => if is_valid_id v then v else [] | None => [] end.
+Proof. intros Hnd Hne. exact (proj1 (proj2 (parse_fields_char fs Hnd Hne))). Qed.
